@@ -10,7 +10,8 @@ LEAN_MODULES = ["LunaVerif.Props.C02"]
 DRIVER = "Driver/C02.lean"
 REQUIRED_THEOREMS = ["receiver_events_exact", "receiver_streams_payload", "complete_iff_crc_valid",
                      "mismatch_iff_crc_invalid_and_len_ge_2", "never_both",
-                     "ready_for_response_only_after_complete", "pid_reported", "boundary_state_is_idle"]
+                     "ready_for_response_only_after_complete", "pid_reported", "boundary_state_is_idle",
+                     "receiver_events_of_raw_history"]
 RULE = ("cases = DUT variant (standalone=True at FS | receiver + real CRC + real timer wired as in USBDevice, HS or FS) x "
         "packet sequence; packets drawn from: good DATA0/1/2/MDATA with payload 0..70 bytes, corrupted (bit flip in "
         "payload / in CRC / CRC bytes swapped), PID only, PID + 1 byte, empty rx_active burst, every PID byte 0..255 "
